@@ -183,7 +183,12 @@ func (fv *FuncVerifier) labelSites() {
 
 // modifies --------------------------------------------------------------
 
+var implicitNothingClause = []*ModClause{{Nothing: true, Src: "nothing (implicit: C13 run)"}}
+
 func (fv *FuncVerifier) activeMods() []*ModClause {
+	if fv.w.implicitNothing && (fv.spec == nil || len(fv.spec.Modifies) == 0) {
+		return implicitNothingClause
+	}
 	if fv.spec == nil {
 		return nil
 	}
